@@ -67,6 +67,18 @@ Theorem C01_scope_isolation_receiver : forall nm1 xs1 nm2 n k v,
 Proof. exact scope_isolation_receiver. Qed.
 Print Assumptions C01_scope_isolation_receiver.
 
+(* a connection that carried a message the receiver rejected part-way (schema Violation: the rest of the rejected
+   sequence is discarded) still numbers its objects like the sender: whatever lies in the discarded part, the receiver's
+   counter advances by exactly the OPENs the sender spent on it, so the references of every later message resolve *)
+Theorem C01_discard_slice : forall t n d cnt rest, 0 < d ->
+  discard (slice n t ++ rest) d cnt = discard rest d (cnt + opens t).
+Proof. exact discard_slice. Qed.
+Print Assumptions C01_discard_slice.
+Theorem C01_discard_rest_of_rejected : forall xs n k cnt rest,
+  discard (slice_list n xs ++ TClose k :: rest) 1 cnt = (0, cnt + opens_list xs, rest).
+Proof. exact discard_rest_of_rejected. Qed.
+Print Assumptions C01_discard_rest_of_rejected.
+
 (* Full statement without the guard's last two clauses is FALSE on the faithful model and on the code (known findings):
    a tuple that contains a Copyable whose attribute (or whose dict's key) is that tuple is sent, but cannot be received. *)
 Theorem C01_refuted_copy_attr : unslice true 0 (slice 0 witness_copy_attr) = None.
